@@ -292,7 +292,7 @@ Lemma pumpk_ok g c t1 p2 t2 ctx :
             cost c (pumpk t1 p2 k) = (N.of_nat k * ctx + cost c t1)%N.
 Proof.
   intros Hv Hs Hr Hc. induction k as [|k IH].
-  - simpl. repeat split; [exact Hv | lia].
+  - cbn [pumpk]. split; [exact Hv | split; [reflexivity | lia]].
   - destruct IH as (IHv & IHr & IHc). simpl pumpk.
     assert (Hr' : root g (pumpk t1 p2 k) = root g t2) by (rewrite IHr; exact Hr).
     split; [|split].
@@ -369,6 +369,49 @@ Proof.
   intros g c st Hnd Hfix fuel. induction fuel as [|f IH]; simpl; [reflexivity|].
   rewrite Hnd, Hfix. simpl. exact IH.
 Qed.
+
+Lemma nlist_eqb_eq a b : nlist_eqb a b = true -> a = b.
+Proof.
+  revert b. induction a as [|x a IH]; intros [|y b] H; simpl in H; try discriminate; [reflexivity|].
+  apply andb_true_iff in H. destruct H as [H1 H2]. apply N.eqb_eq in H1. subst y. f_equal. apply IH. exact H2.
+Qed.
+Lemma blist_eqb_eq a b : blist_eqb a b = true -> a = b.
+Proof.
+  revert b. induction a as [|x a IH]; intros [|y b] H; simpl in H; try discriminate; [reflexivity|].
+  apply andb_true_iff in H. destruct H as [H1 H2]. apply Bool.eqb_prop in H1. subst y. f_equal. apply IH. exact H2.
+Qed.
+Lemma mc_state_eqb_eq s t : mc_state_eqb s t = true -> s = t.
+Proof.
+  destruct s as [c1 d1], t as [c2 d2]. unfold mc_state_eqb. simpl. intros H.
+  apply andb_true_iff in H. destruct H as [H1 H2].
+  apply nlist_eqb_eq in H1. apply blist_eqb_eq in H2. subst. reflexivity.
+Qed.
+
+Lemma mc_run_spec_gen g c fuel : forall st,
+  match mc_run fuel g c st with
+  | McDone l => exists fuel', mc_loop fuel' g c st = Done l
+  | McPanic => exists fuel', mc_loop fuel' g c st = Panic
+  | McDiverges => forall fuel', mc_loop fuel' g c st = OutOfFuel
+  | McFuel => True
+  end.
+Proof.
+  induction fuel as [|f IH]; intros st; simpl; [exact I|].
+  destruct (all_done g st) eqn:Had.
+  - exists 1%nat. simpl. rewrite Had. reflexivity.
+  - destruct (mc_pass g c (ridxs g) st) as [st'| |] eqn:Hp.
+    + destruct (mc_state_eqb st st') eqn:He.
+      * apply mc_state_eqb_eq in He. subst st'. apply mc_fixpoint_diverges; assumption.
+      * specialize (IH st'). destruct (mc_run f g c st') as [l| | |].
+        -- destruct IH as [fuel' IH]. exists (S fuel'). simpl. rewrite Had, Hp. simpl. exact IH.
+        -- destruct IH as [fuel' IH]. exists (S fuel'). simpl. rewrite Had, Hp. simpl. exact IH.
+        -- intros [|fuel']; simpl; [reflexivity|]. rewrite Had, Hp. simpl. apply IH.
+        -- exact I.
+    + exists 1%nat. simpl. rewrite Had, Hp. reflexivity.
+    + exact I.
+Qed.
+
+Lemma mc_run_spec : mc_run_spec_stmt.
+Proof. intros g c fuel. unfold rule_min_costs_run, rule_min_costs_m. apply mc_run_spec_gen. Qed.
 
 (* A: B;  B: A | 'x';   as dumped by the harness: tokens x=0, eof=1; rules ^=0, A=1, B=2 *)
 Definition g_unit_cycle : grammar :=
